@@ -1,15 +1,22 @@
 /-
   Finding F13 (C14): the model exhibits the defect the replay exhibits in the code.  `'\é'`: the body is a backslash
-  followed by U+00E9.  `wrap`'s pipeline yields the four characters `\xe9`; Python's literal keeps `\é`.
-  Built separately (`lake build JinjaV.Findings.F13`), not an obligation.
+  followed by U+00E9.  `wrap`'s pipeline yields the four characters `\xe9`; Python's literal keeps `\é`.  Hence the full
+  statement `StringEscapeSpecStatement` (of which `string_escape_spec_partial` proves everything outside this shape) is
+  false in the model.  Built separately (`lake build JinjaV.Findings.F13`), not an obligation.
 -/
-import JinjaV.Model.Literal
-import JinjaV.Spec.PyLiteral
+import JinjaV.Props.C14
 namespace JinjaV.Findings.F13
-open JinjaV.Literal
+open JinjaV.Literal JinjaV.C14
 
 theorem f13_witness :
-    unescapeBody [92, 233] = .ok [92, 120, 101, 57] ∧ JinjaV.Spec.PyLit.strValue [92, 233] = .ok [92, 233] := by
-  exact ⟨rfl, rfl⟩
+    unescapeBody [92, 233] = .ok [92, 120, 101, 57] ∧ JinjaV.Spec.PyLit.strValue [92, 233] = .ok [92, 233] :=
+  ⟨rfl, rfl⟩
+
+theorem f13_refutes_full_statement : ¬ StringEscapeSpecStatement := by
+  intro h
+  have := h [92, 233] (by decide)
+  rw [show normNl [92, 233] = [92, 233] from rfl, f13_witness.1, f13_witness.2] at this
+  have : ([92, 120, 101, 57] : List Nat) = [92, 233] := this
+  exact absurd this (by decide)
 
 end JinjaV.Findings.F13
